@@ -1,3 +1,294 @@
-import DimModel.Lib.GetSet
+/-
+C20 - property theorems: on-disk access refines in-memory access.
+
+The stored variable (`OnDisk.DiskVar`: coordinate variables + a *flat* row-major cell list, read with
+netCDF4's orthogonal get and written by netCDF4's sequential orthogonal put) simulates the in-memory
+array: `Sim v a` is preserved by every write, and every read through the handle returns what `take`
+returns on the simulated array.  By induction this holds after every history of assignments.
+-/
+import DimModel.Lib.OnDisk
+import DimModel.Proofs.C20
 namespace DimModel
+open Lib OnDisk
+
+/-- simulation relation between a stored variable and an in-memory array -/
+structure Sim {α} (d : α) (v : DiskVar α) (a : DimArray α) : Prop where
+  axes : v.axes = a.axes
+  shape : a.vals.shape = v.shape
+  len : v.cells.length = prod v.shape
+  cells : ∀ j, InRange v.shape j → v.cells.getD (ravel v.shape j) d = a.vals.get j
+  vkind : v.vkind = a.vkind
+  attrs : v.attrs = a.attrs
+
+/-- two results are the same array: same axes, metadata, shape and the same cell at every index of the shape -/
+def SameArr {α} (r r' : DimArray α) : Prop :=
+  r.axes = r'.axes ∧ r.vkind = r'.vkind ∧ r.attrs = r'.attrs ∧ r.vals.shape = r'.vals.shape ∧
+    ∀ j, InRange r.vals.shape j → r.vals.get j = r'.vals.get j
+
+/-- same outcome: the same error class, or the same array -/
+def SameOut {α} (x y : Except Err (DimArray α)) : Prop :=
+  match x, y with
+  | .ok r, .ok r' => SameArr r r'
+  | .error e, .error e' => e = e'
+  | _, _ => False
+
+/-- writing an array to a file and opening it gives a variable that simulates the array -/
+theorem sim_store {α} (d : α) (a : DimArray α) (hwf : a.vals.shape = a.axes.map (·.size)) :
+    Sim d (store a) a := by
+  have hsh : (store a).shape = a.vals.shape := hwf.symm
+  refine ⟨rfl, hwf, ?_, ?_, rfl, rfl⟩
+  · rw [hsh]
+    show ((allIdx a.vals.shape).map a.vals.get).length = _
+    rw [List.length_map, allIdx_length]
+  · intro j hj
+    rw [hsh] at hj ⊢
+    exact allIdx_map_getD a.vals.shape j a.vals.get d hj
+
+/-- the fully loaded array is the array that was written -/
+theorem load_store {α} (d : α) (a : DimArray α) (hwf : a.vals.shape = a.axes.map (·.size)) :
+    SameArr (load d (store a)) a := by
+  have hs := sim_store d a hwf
+  exact ⟨rfl, rfl, rfl, hwf.symm, fun j hj => hs.cells j hj⟩
+
+/-- READ: any index (label / position mode, scalars, lists, masks, slices, dicts, tolerance - whatever
+`getIndices` accepts) read through the on-disk handle gives exactly what the same index gives on the
+in-memory array, including the error class when it is refused -/
+theorem ondisk_read_eq_take {α} (d : α) (v : DiskVar α) (a : DimArray α) (hs : Sim d v a)
+    (hplain : ∀ ax ∈ a.axes, ax.members = []) (ui : UserIndex) (cfg : IndexCfg) :
+    SameOut (read d v ui cfg) (take a ui cfg) := by
+  have hvs : v.shape = a.axes.map (·.size) := by unfold DiskVar.shape; rw [hs.axes]
+  unfold OnDisk.read take
+  rw [hs.axes]
+  cases hgi : getIndices a.axes ui cfg with
+  | error e => simp only [bind, Except.bind, SameOut]
+  | ok raw =>
+    simp only [bind, Except.bind]
+    generalize hpx : List.mapM (m := Except Err) _ (raw.zip a.axes) = m
+    cases m with
+    | error e => simp only [SameOut]
+    | ok pix =>
+      simp only [pure, Except.pure, SameOut]
+      have hok : PixOk v.shape pix := by
+        rw [hvs]
+        exact resolve_all_ok _ (fun _ _ => rfl) a.axes raw pix (getIndices_length _ _ _ _ hgi) hpx
+      refine ⟨(getAxesOrtho_eq _ (fun _ _ => rfl) a.axes raw pix hplain hpx).symm, hs.vkind, hs.attrs, rfl, ?_⟩
+      intro j hj
+      exact hs.cells _ (expandIx_inRange v.shape pix j hok hj)
+
+/-- netCDF4's sequential put on the flat store is the pointwise `putVals` of the in-memory model
+(with repeated positions the last write wins in both) -/
+theorem ncPut_spec {α} (d : α) (shape : List Nat) (cells : List α) (pix : List PosIx) (vget : List Nat → α)
+    (hlen : cells.length = prod shape) (hpl : pix.length = shape.length)
+    (hin : ∀ k (hk : k < pix.length), match pix[k] with
+        | .scalar p => p < shape.getD k 0
+        | .list ps => ∀ p ∈ ps, p < shape.getD k 0)
+    (j : List Nat) (hj : InRange shape j) :
+    (ncPut shape cells pix vget).getD (ravel shape j) d
+      = (putVals { shape := shape, get := fun i => cells.getD (ravel shape i) d } pix vget).get j := by
+  have hok : PixOk shape pix := by
+    apply pixOk_of_forall shape pix hpl
+    intro k hk
+    have := hin k hk
+    cases hp : pix[k] with
+    | scalar p => rw [hp] at this; simpa [PixOk] using this
+    | list ps => rw [hp] at this; simpa [PixOk] using this
+  exact ncPut_getD d shape cells pix vget hlen hok j hj
+
+theorem ncPut_length {α} (shape : List Nat) (cells : List α) (pix : List PosIx) (vget : List Nat → α) :
+    (ncPut shape cells pix vget).length = cells.length := by
+  exact ncPut_length_aux shape cells pix vget
+
+/-- WRITE: an assignment accepted through the on-disk handle is accepted in memory and leaves the file
+simulating the assigned array -/
+theorem ondisk_write_eq_put {α} (d : α) (v v' : DiskVar α) (a : DimArray α) (hs : Sim d v a)
+    (ui : UserIndex) (rhs : RHS α) (rk : Kind) (cfg : IndexCfg)
+    (hw : write v ui rhs cfg = .ok v') :
+    ∃ a', put a ui rhs rk cfg false = .ok a' ∧ Sim d v' a' := by
+  have hvs : v.shape = a.axes.map (·.size) := by unfold DiskVar.shape; rw [hs.axes]
+  unfold write at hw
+  obtain ⟨raw, hraw, hw⟩ := except_bind_ok _ _ _ hw
+  obtain ⟨pix, hpix, hw⟩ := except_bind_ok _ _ _ hw
+  obtain ⟨vget, hvget, hw⟩ := except_bind_ok _ _ _ hw
+  simp only [pure, Except.pure, Except.ok.injEq] at hw
+  subst hw
+  rw [hs.axes] at hraw hpix
+  obtain ⟨pix', hpi, hsh, hor⟩ := putIndices_of_resolve _ (fun _ _ => rfl) a.axes raw pix hpix
+  have hok : PixOk v.shape pix := by
+    rw [hvs]
+    exact resolve_all_ok _ (fun _ _ => rfl) a.axes raw pix (getIndices_length _ _ _ _ hraw) hpix
+  refine ⟨{ a with vals := putVals a.vals pix' vget }, ?_, ?_⟩
+  · unfold put
+    simp only [bind, Except.bind, hraw, hpi, hsh, hvget, pure, Except.pure]
+    rfl
+  · refine ⟨hs.axes, hs.shape, ?_, ?_, hs.vkind, hs.attrs⟩
+    · show (ncPut v.shape v.cells pix vget).length = prod v.shape
+      rw [ncPut_length_aux, hs.len]
+    · intro j hj
+      show (ncPut v.shape v.cells pix vget).getD (ravel v.shape j) d = (putVals a.vals pix' vget).get j
+      rw [ncPut_getD d v.shape v.cells pix vget hs.len hok j hj]
+      simp only [putVals]
+      have hsel : selCoord pix' j = selCoord pix j := by
+        rcases hor with h | h
+        · rw [h]
+        · rw [selCoord_none_of_zero pix j h, selCoord_none_of_zero pix' j (by rw [hsh]; exact h)]
+      rw [hsel]
+      cases selCoord pix j with
+      | some c => rfl
+      | none => exact hs.cells j hj
+
+/-- ... and a refusal on disk is the same refusal in memory, except for the one case where NumPy is more
+permissive: an empty outer selection, for which NumPy does not bounds-check the other integer lists -/
+theorem ondisk_write_error {α} (d : α) (v : DiskVar α) (a : DimArray α) (hs : Sim d v a)
+    (ui : UserIndex) (rhs : RHS α) (rk : Kind) (cfg : IndexCfg) (e : Err)
+    (hw : write v ui rhs cfg = .error e)
+    (hne : ∀ raw, getIndices a.axes ui { cfg with keepdims := false } = .ok raw →
+        putIndices a.axes raw = (raw.zip a.axes).mapM fun (r, ax) => resolveRaw r ax.size) :
+    put a ui rhs rk cfg false = .error e := by
+  unfold write at hw
+  rw [hs.axes] at hw
+  unfold put
+  cases hraw : getIndices a.axes ui { cfg with keepdims := false } with
+  | error e' =>
+    rw [hraw] at hw
+    simp only [bind, Except.bind] at hw ⊢
+    cases hw
+    rfl
+  | ok raw =>
+    rw [hraw] at hw
+    simp only [bind, Except.bind] at hw ⊢
+    rw [hne raw hraw]
+    generalize List.mapM (m := Except Err) _ (raw.zip a.axes) = m at hw ⊢
+    cases m with
+    | error e' =>
+      simp only at hw ⊢
+      cases hw
+      rfl
+    | ok pix =>
+      simp only at hw ⊢
+      cases hv : putRhs rhs (outerShape pix) with
+      | error e' =>
+        rw [hv] at hw
+        simp only at hw ⊢
+        cases hw
+        rfl
+      | ok vget => rw [hv] at hw; simp [pure, Except.pure] at hw
+
+/-- one step of a history on both sides -/
+inductive Step (α : Type)
+  | write (ui : UserIndex) (rhs : RHS α) (cfg : IndexCfg)
+
+def diskRun {α} (v : DiskVar α) : List (Step α) → Except Err (DiskVar α)
+  | [] => .ok v
+  | .write ui rhs cfg :: rest => do let v' ← write v ui rhs cfg; diskRun v' rest
+
+def memRun {α} (a : DimArray α) : List (Step α) → Except Err (DimArray α)
+  | [] => .ok a
+  | .write ui rhs cfg :: rest => do let a' ← put a ui rhs .f cfg false; memRun a' rest
+
+/-- HISTORIES: after any sequence of on-disk assignments the file simulates the array obtained by the
+same assignments in memory; hence (with `ondisk_read_eq_take`) every later read agrees -/
+theorem ondisk_history {α} (d : α) (steps : List (Step α)) (v v' : DiskVar α) (a : DimArray α)
+    (hs : Sim d v a) (hr : diskRun v steps = .ok v') :
+    ∃ a', memRun a steps = .ok a' ∧ Sim d v' a' := by
+  induction steps generalizing v a with
+  | nil =>
+    simp only [diskRun, Except.ok.injEq] at hr
+    subst hr
+    exact ⟨a, rfl, hs⟩
+  | cons st rest ih =>
+    cases st with
+    | write ui rhs cfg =>
+      simp only [diskRun] at hr
+      obtain ⟨v1, hw, hr'⟩ := except_bind_ok _ _ _ hr
+      obtain ⟨a1, hput, hs1⟩ := ondisk_write_eq_put d v v1 a hs ui rhs .f cfg hw
+      obtain ⟨a', hmem, hs'⟩ := ih v1 a1 hs1 hr'
+      refine ⟨a', ?_, hs'⟩
+      simp only [memRun, hput, bind, Except.bind]
+      exact hmem
+
+/-- in-memory assignments never change the axes -/
+theorem memRun_axes {α} (steps : List (Step α)) (a a' : DimArray α) (h : memRun a steps = .ok a') :
+    a'.axes = a.axes := by
+  induction steps generalizing a with
+  | nil =>
+    simp only [memRun, Except.ok.injEq] at h
+    rw [h]
+  | cons st rest ih =>
+    cases st with
+    | write ui rhs cfg =>
+      simp only [memRun] at h
+      obtain ⟨a1, hput, h'⟩ := except_bind_ok _ _ _ h
+      rw [ih a1 h', (put_labels_unchanged a a1 ui rhs .f cfg false hput).1]
+
+theorem ondisk_history_read {α} (d : α) (steps : List (Step α)) (v v' : DiskVar α) (a : DimArray α)
+    (hs : Sim d v a) (hplain : ∀ ax ∈ a.axes, ax.members = []) (hr : diskRun v steps = .ok v')
+    (ui : UserIndex) (cfg : IndexCfg) :
+    ∃ a', memRun a steps = .ok a' ∧ SameOut (read d v' ui cfg) (take a' ui cfg) := by
+  obtain ⟨a', hmem, hs'⟩ := ondisk_history d steps v v' a hs hr
+  refine ⟨a', hmem, ondisk_read_eq_take d v' a' hs' ?_ ui cfg⟩
+  rw [memRun_axes steps a a' hmem]
+  exact hplain
+
+/-- UNLIMITED DIMENSION: writing a record at the end of the first dimension extends the axis with the
+supplied label and the data with the record, leaving everything before it as it was -/
+theorem writeRecord_append {α} (d : α) (v v' : DiskVar α) (ax : Axis) (rest : List Axis) (lab : Label) (row : List α)
+    (hax : v.axes = ax :: rest) (hm : ax.members = []) (hlen : v.cells.length = prod v.shape)
+    (hw : writeRecord v ax.labels.length lab row = .ok v') :
+    v'.axes = { ax with labels := ax.labels ++ [lab] } :: rest ∧
+    v'.cells.length = prod v'.shape ∧
+    (∀ i j, i < ax.labels.length → InRange (rest.map (·.size)) j →
+        v'.cells.getD (ravel v'.shape (i :: j)) d = v.cells.getD (ravel v.shape (i :: j)) d) ∧
+    (∀ j, InRange (rest.map (·.size)) j →
+        v'.cells.getD (ravel v'.shape (ax.labels.length :: j)) d = row.getD (ravel (rest.map (·.size)) j) d) := by
+  unfold writeRecord at hw
+  simp only [hax, beq_self_eq_true, if_true] at hw
+  split at hw
+  · cases hw
+  · rename_i hrow
+    simp only [Except.ok.injEq] at hw
+    subst hw
+    have hrow' : row.length = prod (rest.map (·.size)) := by simpa using hrow
+    have hsz : ax.size = ax.labels.length := axis_size_plain ax hm
+    have hsh : v.shape = ax.labels.length :: rest.map (·.size) := by
+      unfold DiskVar.shape; rw [hax, List.map_cons, hsz]
+    have hlen' : v.cells.length = ax.labels.length * prod (rest.map (·.size)) := by
+      rw [hlen, hsh, prod_cons]
+    refine ⟨rfl, ?_, ?_, ?_⟩
+    · show (v.cells ++ row).length = prod (List.map (·.size) (_ :: rest))
+      simp only [List.map_cons, prod_cons, List.length_append, hlen', hrow']
+      simp only [Axis.size, hm, List.isEmpty_nil, if_true, List.length_append, List.length_cons,
+        List.length_nil]
+      rw [Nat.succ_mul]
+    · intro i j hi hj
+      show (v.cells ++ row).getD (ravel (List.map (·.size) (_ :: rest)) (i :: j)) d = _
+      rw [hsh]
+      simp only [List.map_cons, ravel]
+      have hr := ravel_lt _ j hj
+      have hlt : i * prod (rest.map (·.size)) + ravel (rest.map (·.size)) j < v.cells.length := by
+        rw [hlen']; exact mul_add_lt hi hr
+      rw [List.getD_eq_getElem?_getD, List.getD_eq_getElem?_getD, List.getElem?_append_left hlt]
+    · intro j hj
+      show (v.cells ++ row).getD (ravel (List.map (·.size) (_ :: rest)) (ax.labels.length :: j)) d = _
+      simp only [List.map_cons, ravel]
+      rw [List.getD_eq_getElem?_getD, List.getD_eq_getElem?_getD,
+        List.getElem?_append_right (by rw [hlen']; omega)]
+      congr 2
+      rw [hlen']; omega
+
+/-! non-vacuity -/
+def exDisk : DimArray Nat :=
+  { axes := [{ name := "x", labels := [.num 3, .num 1], kind := .i, attrs := [] },
+             { name := "y", labels := [.str "a", .str "b", .str "c"], kind := .O, attrs := [] }],
+    vals := { shape := [2, 3], get := fun j => 10 * j.getD 0 0 + j.getD 1 0 }, vkind := .i, attrs := [] }
+
+example : (store exDisk).cells = [0, 1, 2, 10, 11, 12] := by decide
+example : exDisk.vals.shape = exDisk.axes.map (·.size) := by decide
+/-- sequential put with a repeated position: the last writer wins, other cells are untouched -/
+example : ncPut [2, 3] [0, 1, 2, 10, 11, 12] [.list [1, 1], .scalar 2] (fun c => 100 + c.getD 0 0)
+    = [0, 1, 2, 10, 11, 101] := by decide
+example : selCoord [.list [1, 1], .scalar 2] [1, 2] = some [1] := by decide
+/-- appending a record to the stored example -/
+example : (writeRecord (store exDisk) 2 (.num 7) [20, 21, 22]).toOption.map (fun v' => (v'.cells, v'.shape))
+    = some ([0, 1, 2, 10, 11, 12, 20, 21, 22], [3, 3]) := by decide
+
 end DimModel
